@@ -289,48 +289,48 @@ fn normalize_label_fold_test() {
 pub fn split_off_front_matter<'s>(mut s: &'s str, delimiter: &str) -> Option<(&'s str, &'s str)> {
     s = trim_start_match(s, "\u{feff}");
 
+    // The opening delimiter must be the first line, alone on it.
+    let mut pos = delimiter.len();
     if !s.starts_with(delimiter) {
         return None;
     }
-    let mut start = delimiter.len();
-    if s[start..].starts_with('\n') {
-        start += 1;
-    } else if s[start..].starts_with("\r\n") {
-        start += 2;
-    } else {
-        return None;
+    match line_ending_len(&s[pos..]) {
+        0 => return None,
+        n => pos += n,
     }
 
-    start += match s[start..]
-        .find(&("\n".to_string() + delimiter + "\r\n"))
-        .or_else(|| s[start..].find(&("\n".to_string() + delimiter + "\n")))
-        .or_else(|| s[start..].find(&("\n".to_string() + delimiter))) // delimiter followed by EOF
-    {
-        Some(n) => n + 1 + delimiter.len(),
-        None => return None,
-    };
+    // The front matter ends with the first later line that is the delimiter
+    // alone, whatever the line endings of the lines in between are.
+    loop {
+        let content_end = s[pos..]
+            .find(|c| c == '\n' || c == '\r')
+            .map_or(s.len(), |n| pos + n);
+        let next = content_end + line_ending_len(&s[content_end..]);
 
-    if start == s.len() {
-        return Some((s, ""));
+        if &s[pos..content_end] == delimiter {
+            // A blank line directly after the closing delimiter belongs to the
+            // front matter.
+            let end = next + line_ending_len(&s[next..]);
+            return Some((&s[..end], &s[end..]));
+        }
+
+        if next == content_end {
+            // End of input without a closing delimiter.
+            return None;
+        }
+        pos = next;
     }
+}
 
-    start += if s[start..].starts_with('\n') {
-        1
-    } else if s[start..].starts_with("\r\n") {
+// Length of the line ending (LF, CRLF or CR) `s` starts with, or 0.
+fn line_ending_len(s: &str) -> usize {
+    if s.starts_with("\r\n") {
         2
-    } else {
-        return None;
-    };
-
-    start += if s[start..].starts_with('\n') {
+    } else if s.starts_with('\n') || s.starts_with('\r') {
         1
-    } else if s[start..].starts_with("\r\n") {
-        2
     } else {
         0
-    };
-
-    Some((&s[..start], &s[start..]))
+    }
 }
 
 pub fn trim_start_match<'s>(s: &'s str, pat: &str) -> &'s str {
